@@ -752,3 +752,78 @@ func short(s string, n int) string {
 	}
 	return s
 }
+
+// ---------------------------------------------------------------------------------
+// backward data-dependence slice (within one function)
+
+// dependsOn walks the operands of v backwards (through loads, conversions, calls, phis)
+// and reports whether some value in the slice satisfies pred. Loads of local Allocs
+// continue through the stores into them.
+func dependsOn(v ssa.Value, pred func(ssa.Value) bool) bool {
+	seen := map[ssa.Value]bool{}
+	var walk func(v ssa.Value, d int) bool
+	walk = func(v ssa.Value, d int) bool {
+		if v == nil || seen[v] || d > 40 {
+			return false
+		}
+		seen[v] = true
+		if pred(v) {
+			return true
+		}
+		if a, ok := v.(*ssa.Alloc); ok {
+			for _, r := range *a.Referrers() {
+				if st, ok := r.(*ssa.Store); ok && st.Addr == a {
+					if walk(st.Val, d+1) {
+						return true
+					}
+				}
+			}
+			return false
+		}
+		in, ok := v.(ssa.Instruction)
+		if !ok {
+			return false
+		}
+		for _, op := range in.Operands(nil) {
+			if op != nil && *op != nil {
+				if walk(*op, d+1) {
+					return true
+				}
+			}
+		}
+		return false
+	}
+	return walk(v, 0)
+}
+
+// isFieldLoadOf: v is a load (or address) of field `field` of a struct type named tn
+// (module-relative "pkg.Type").
+func (p *Prog) isFieldOf(v ssa.Value, tn, field string) bool {
+	if t, f, _ := p.fieldLoad(v); t == tn && f == field {
+		return true
+	}
+	if t, f, _ := p.fieldAddr(v); t == tn && f == field {
+		return true
+	}
+	return false
+}
+
+// constInt returns the folded integer value of v.
+func constInt(v ssa.Value) (int64, bool) {
+	c, ok := v.(*ssa.Const)
+	if !ok || c.Value == nil {
+		return 0, false
+	}
+	if c.Value.Kind() != constant.Int {
+		return 0, false
+	}
+	return constant.Int64Val(c.Value)
+}
+
+func constString(v ssa.Value) (string, bool) {
+	c, ok := v.(*ssa.Const)
+	if !ok || c.Value == nil || c.Value.Kind() != constant.String {
+		return "", false
+	}
+	return constant.StringVal(c.Value), true
+}
